@@ -314,7 +314,29 @@ _SUB_FLOORS = {
                             'sub:ws-reread:%s:iter': 260, 'sub:ws-reread:%s:ctor': 145,
                             'sub:reread-explicit-strict:%s:iter': 640, 'sub:reread-explicit-strict:%s:ctor': 280},
               'per-prime-class': {'sub:prime-cls:%s': 95}, 'per-how': {'sub:prime:%s': 145}},
-    'thorough': {'monitors': {}, 'counters': {}, 'per-class': {}, 'per-prime-class': {}, 'per-how': {}},
+    'thorough': {'monitors': {'M.cross-class': 70000, 'M.reread-sub': 560000, 'M.sub.must-reject': 75000},
+                 'counters': {'sub:case:enum': 1596, 'sub:case:ws-enum': 480, 'sub:case:field-enum': 93,
+                              'sub:case:hist': 39000, 'sub:judge': 99000, 'sub:prime': 34000,
+                              'sub:cross-class-history': 20000, 'sub:cross-class-history:judge-first': 9800,
+                              'sub:cross-class-history:prime-first': 10000, 'sub:hostile-after-prime-of-name': 17000,
+                              'sub:judge-after-prime-in-same-case': 23000, 'sub:judge-before-any-prime-of-name': 310,
+                              'sub:judge-same-string-as-prime': 3200,
+                              'sub:judge:name-multivalued-in-another-class': 70000,
+                              'sub:judge-with-own-multivalued-neighbour': 23000,
+                              'sub:ws-only-continuation-followed': 21000, 'sub:route:copy': 10000,
+                              'sub:route:ctor': 10000, 'sub:route:setdefault': 4700, 'sub:route:update': 14000,
+                              'sub:build:parse': 19000, 'sub:build:parse-stream': 19000, 'sub:build:dict': 15000,
+                              'sub:copy-checked': 8100, 'sub:ws-reread-form:str': 35000,
+                              'sub:ws-reread-form:bytes': 17000, 'sub:ws-reread-form:stringio': 15000,
+                              'sub:ws-reread-form:bytesio': 14000, 'sub:ws-reread-form:lines-nl': 15000,
+                              'sub:ws-reread-form:lines-bare': 15000, 'sub:ws-reread-form:lines-nl-seq': 4500,
+                              'sub:ws-reread-form:lines-bare-seq': 4500, 'sub:ws-reread-form:textfile': 15000,
+                              'sub:ws-reread-form:binfile': 15000},
+                 'per-class': {'sub:judge:%s': 10000, 'sub:accepted:%s': 8100,
+                               'sub:ws-only-continuation-followed:%s': 2300, 'sub:ws-reread:%s:iter': 10000,
+                               'sub:ws-reread:%s:ctor': 4700, 'sub:reread-explicit-strict:%s:iter': 30000,
+                               'sub:reread-explicit-strict:%s:ctor': 11000},
+                 'per-prime-class': {'sub:prime-cls:%s': 3000}, 'per-how': {'sub:prime:%s': 5500}},
 }
 for _tier, _f in _SUB_FLOORS.items():
     FLOORS[_tier]['monitors'].update(_f['monitors'])
